@@ -125,6 +125,7 @@ def run(chk: Check, ctx: Any) -> None:
         "stacks are popped on every normal exit of the collect() that pushed; (R5) import targets must be regular files; (R6) the SsbScript "
         "parse listener's failures are turned into ParseError when syntax errors were recorded; (R7) the macros-only check inspects the "
         "parsed tree. Implicit exceptions (AttributeError/TypeError/IndexError of arbitrary expressions) are not decided in general."
+        " (R8, interpreter-based) compile() is evaluated on the meaningless and degenerate program shapes named by the specification."
     )
     chk.assumptions = ["narrowing asserts (`is not None`, `isinstance`, stack identity checks) do not fire", "ANTLR runtime raises nothing but what the error listener records"]
     chk.rule("C10-R1", "roots of the exception classes escaping compile() are within {ParseError, SsbCompilerError, ValueError and subclasses}")
